@@ -64,6 +64,7 @@ class Sched(object):
         self.quiet = 0
         self.waiting = {}
         self.tracebacks = []
+        self.max_points = 40000
 
     # ---- naming --------------------------------------------------------------------------
     def name(self, obj, role):
@@ -85,6 +86,11 @@ class Sched(object):
 
     # ---- scheduling ----------------------------------------------------------------------
     def pick(self, cur):
+        if self.npoints > self.max_points and not self.fin.is_set():
+            # periodic timers keep firing but nothing else makes progress: treat as a hang
+            self.deadlock = ["<step limit>"] + [t.name for t in self.threads.values() if not t.done and t.blocked_on is not None]
+            self.fin.set()
+            return None
         while True:
             cand = [t for t in self.threads.values() if not t.done and t.ready()]
             if cand:
@@ -239,9 +245,9 @@ class DLock(object):
             if not blocking:
                 S.emit("tryacq", self._role(), 0)
                 return False
-            S.waiting[cur.name] = (self._role(), self.owner.name if self.owner is not None else None)
+            S.waiting["%s#%d" % (cur.name, cur.tid)] = (self._role(), "%s#%d" % (self.owner.name, self.owner.tid) if self.owner is not None else None)
             block(lambda: self.owner is None)
-            S.waiting.pop(cur.name, None)
+            S.waiting.pop("%s#%d" % (cur.name, cur.tid), None)
         self.owner = cur
         self.count = 1
         S.emit("acq", self._role())
@@ -610,6 +616,7 @@ def install(pool=False):
     event.RLock = DRLock
     event.GLOBAL_HANDLER.lock = _QuietRLock()
     common.RLock = DRLock
+    helpers.RLock = DRLock
     helpers.Lock = DLock
     cancel_on_shutdown.RLock = DRLock
     fbool.Lock = DLock
@@ -618,7 +625,7 @@ def install(pool=False):
     ftimeout.EXECUTOR_REF = None
     # the process-wide sync executor behind wrap()/f_map/... was created at import time with a real Lock
     from more_executors._impl.futures import base as fbase
-    fbase.EXECUTOR._shutdown._lock = DLock()
+    fbase.EXECUTOR._shutdown._lock = DRLock()
     _GLOBALS.append(fbase.EXECUTOR._shutdown._lock)
     if pool:
         install_pool()
